@@ -287,7 +287,7 @@ pub fn run(ctx: &Ctx) -> (Stats, Report) {
     st.section("linear_ops_pool_cross_product", &mut mark);
 
     // E2: random operands through proptest
-    let cases = if ctx.thorough { 400_000 } else { 30_000 };
+    let cases = if ctx.thorough { 3_000_000 } else { 120_000 };
     let mut edge_sets = std::collections::HashMap::new();
     for k in crate::model::text::KINDS {
         edge_sets.insert(k, pools::pool(k, seed, 0).into_iter().map(|v| v.raw).collect::<std::collections::HashSet<_>>());
@@ -344,8 +344,8 @@ pub fn run(ctx: &Ctx) -> (Stats, Report) {
     st.section("linear_ops_random_operands", &mut mark);
 
     // laws
-    let tsp = pools::ts_pool_small(seed, if ctx.thorough { 300 } else { 60 });
-    let dtp = pools::dt_pool(seed, if ctx.thorough { 300 } else { 60 });
+    let tsp = pools::ts_pool_small(seed, if ctx.thorough { 800 } else { 120 });
+    let dtp = pools::dt_pool(seed, if ctx.thorough { 800 } else { 120 });
     let dp = pools::date_pool(seed, 100);
     let i32p = pools::i32_scalars();
     let ymp = pools::ym_pool(seed, 60);
@@ -451,7 +451,7 @@ pub fn run(ctx: &Ctx) -> (Stats, Report) {
     let s = pt_run(
         "C08/add_days",
         seed,
-        (if ctx.thorough { 4_000_000 } else { 400_000 }) / THREADS as u32,
+        (if ctx.thorough { 32_000_000 } else { 1_600_000 }) / THREADS as u32,
         THREADS,
         || (strat::raw(Kind::Ts), strat::any_f64(), any::<bool>()),
         |(x, f, sub): &(i128, f64, bool), st: &mut Stats| {
